@@ -188,6 +188,19 @@ fn pick(s: &mut Sched, me: usize, must_switch: bool) -> Option<usize> {
             let next = others[tape::choose(site::SCHED, others.len() as u32) as usize];
             return Some(next);
         }
+        // An awake kernel submission thread picks up what is queued...
+        let consumed = kernel::with(|k| {
+            let mut any = false;
+            for r in 0..k.rings.len() {
+                if k.rings[r].sqpoll() && k.rings[r].sq_awake && k.rings[r].enabled && k.rings[r].sq_pending() > 0 {
+                    any |= k.consume(r, u32::MAX) > 0;
+                }
+            }
+            any
+        });
+        if consumed {
+            continue;
+        }
         // Nobody can run. Is anybody waiting for completions?
         let waiters: Vec<usize> = (0..s.threads.len())
             .filter(|i| matches!(s.threads[*i].state, State::BlockedCq { .. }))
